@@ -151,7 +151,7 @@ func genGraphs(rng *Rng, bigInts bool, stats *Stats) []genGraph {
 			switch rng.Intn(6) {
 			case 0: // self loop
 				e.e = e.s
-				stats.Inc("gen.self_loop")
+				stats.Inc("self_loop")
 			case 1: // parallel edge: same endpoints and kind as an earlier edge, sometimes same properties
 				if len(g.edges) > 0 {
 					p := g.edges[rng.Intn(len(g.edges))]
@@ -159,7 +159,7 @@ func genGraphs(rng *Rng, bigInts bool, stats *Stats) []genGraph {
 					if rng.Bool() {
 						e.props = p.props
 					}
-					stats.Inc("gen.parallel_edge")
+					stats.Inc("parallel_edge")
 				}
 			}
 			g.edges = append(g.edges, e)
@@ -270,8 +270,8 @@ func (s c18Suite) Gen(rng *Rng, tier string, w *bufio.Writer, stats *Stats) {
 			}
 			fmt.Fprintln(w, "loaded")
 			fmt.Fprintf(w, "verify %d\n", Pick(rng, sizes))
-			stats.Inc("gen.cases")
-			stats.Inc("gen.codec." + c.codec)
+			stats.Inc("cases")
+			stats.Inc("codec." + c.codec)
 		}
 	}
 }
